@@ -3,8 +3,8 @@
    Executable definitions only.  Level (i): exact rational arithmetic (QArith); the
    floating-point level is Model/SensorConvF.v.
 
-   convert_sensor_value_to_raw is modelled WITH the proposed repair
-   fixes/F17-sensor-value-to-raw-inverse.diff (the two repaired lines are marked). *)
+   convert_sensor_value_to_raw is modelled as repaired by fixes/F17-sensor-value-to-raw-inverse.diff
+   (committed in /repo; the repaired lines are marked with the original text). *)
 From Coq Require Import NArith ZArith List Bool QArith Qpower.
 From PyIpmi Require Import Lib.Res.
 Import ListNotations.
@@ -88,19 +88,5 @@ Definition convert_sensor_value_to_raw (s : sensor) (value : Q) : res Z :=
     let raw :=
       if (s_fmt s =? 1)%N then (if raw <? 0 then Z.lor (Z.lxor (- raw) 0x7f) 0x80 else raw)
       else if (s_fmt s =? 2)%N then (if raw <? 0 then Z.lor (Z.lxor (- (raw + 1)) 0x7f) 0x80 else raw)
-      else raw in
-    if raw >? 0xff then Err (OtherError ValueError) else Ok raw.
-
-(* the ORIGINAL convert_sensor_value_to_raw (before F17), kept to state what was wrong *)
-Definition convert_sensor_value_to_raw_orig (s : sensor) (value : Q) : res Z :=
-  if negb (N.land (s_lin s) 0x7f =? 0)%N then Err (OtherError NotImplementedErr)
-  else if s_m s =? 0 then Err (OtherError OtherExc)
-  else
-    let rawq := ((value * pow10 (- s_k2 s)) / inject_Z (s_m s) - inject_Z (s_b s) * pow10 (s_k1 s))%Q in
-    let raw := round_half_even rawq in
-    let neg := match Qcompare value 0 with Lt => true | _ => false end in
-    let raw :=
-      if (s_fmt s =? 1)%N then (if neg then Z.lor (Z.lxor (- raw) 0x7f) 0x80 else raw)
-      else if (s_fmt s =? 2)%N then (if neg then Z.lor (Z.lxor (- (raw + 1)) 0x7f) 0x80 else raw)
       else raw in
     if raw >? 0xff then Err (OtherError ValueError) else Ok raw.
